@@ -593,6 +593,7 @@ def _l3(model, rep):
            f.short(), f"entity order {tuple(order)} differs from the local "
            f"basis order {ref}", f.lineno)
     names = _names_sites(model)
+    names = {k_: v_ for k_, v_ in names.items() if "#" not in k_}
     orders = {n_: _order_from_preds(p) for n_, (f, p) in names.items()}
     f, p = names["ElementComposite.__init__"]
     others = {o for n_, o in orders.items()
